@@ -173,7 +173,8 @@ def handleC08 (j : Json) : Except String Verdict := do
     let occ := (show List (Int × T d) from t).length
     let s ← parseSplit j shape occ
     let a := effActive act (show List (Int × T d) from t)
-    let pre := wfB (d + 1) t && s.ok && domAt act dflt d 0 t
+    -- (`/` and `//` of an empty fiber compute step 0; nothing is iterated then)
+    let pre := wfB (d + 1) t && (s.ok || occ == 0) && domAt act dflt d 0 t
     match reJ with
     | none =>
       let m := modelF s act dflt d t
